@@ -323,7 +323,15 @@ def tab_l(ctx):
             continue  # outside the configuration space: the processed minimum is one of the six named levels
         elif mt == "Log":
             # semantic: under each of the three orderings of (minimum, message level) the result is "minimum < message"
-            ok = res is not None and all(order_eval(res, o, "level", "*self.message_type.Log.0") == (o < 0) for o in (-1, 0, 1))
+            # (when the path is keyed on the concrete named levels the orderings are the ones of those levels)
+            named = [x for x in dlt_spec.LOG_LEVEL_ORDER if x != "Invalid"]
+            ns = [x for x in (n or "").split("|") if x in named] if n and all(x in named for x in n.split("|")) else None
+            ls = [x for x in (lvl or "").split("|") if x in named] if lvl and all(x in named for x in lvl.split("|")) else None
+            if ns and ls:
+                orders = sorted({(named.index(l) > named.index(m)) - (named.index(l) < named.index(m)) for l in ls for m in ns})
+            else:
+                orders = [-1, 0, 1]
+            ok = res is not None and all(order_eval(res, o, "level", "*self.message_type.Log.0") == (o < 0) for o in orders)
             want = "minimum < message level (message less severe than the minimum)"
         else:
             ok = False
